@@ -21,6 +21,7 @@ type Case struct {
 	Scope string `json:"scope,omitempty"` // composite routes: top | func | method
 	Fresh bool   `json:"fresh,omitempty"` // run in a fresh interpreter (not the long-lived one of the child)
 	NoEffect bool `json:"noeffect,omitempty"` // composite routes: the effect check does not apply
+	Hist string `json:"hist,omitempty"` // history stream: <prefix>@<placement>
 }
 
 type runner struct {
@@ -31,6 +32,7 @@ type runner struct {
 	crashes int // child processes lost to a fatal error / hang
 	fresh bool // the next script runs in a fresh interpreter
 	sigs  map[string]string // every violation signature seen → coordinates of its first case (debug dump)
+	hstats map[string]map[string]int // history stream: per prefix, how often it ran to its end / threw / was rejected
 }
 
 func (r *runner) seen(sig string, cs *Case) {
